@@ -251,11 +251,13 @@ where
     // apply change to pixel data attribute
     match bits_allocated {
         8 => {
-            // 8-bit samples
+            // 8-bit samples: held as a sequence of bytes,
+            // which is only encoded the same way in every native transfer syntax
+            // (including big endian) with the VR OB
             let pixels = decoded_pixeldata.data().to_vec();
             obj.put(DataElement::new_with_len(
                 tags::PIXEL_DATA,
-                VR::OW,
+                VR::OB,
                 Length::defined(pixels.len() as u32),
                 PrimitiveValue::from(pixels),
             ));
